@@ -61,6 +61,7 @@ func Features(preset string) prog.Features {
 	f.DigitNames = !fw.KFOpen("KF-compiler-mangle-collision")
 	f.ElemAliasing = !fw.KFOpen("KF-vm-scalar-alias")
 	f.NullLiteral = !fw.KFOpen("KF-vm-null-literal-leak")
+	f.ClosureCapture = !fw.KFOpen("KF-vm-closure-capture")
 	if preset == "shared" {
 		// the language both backends implement: no trigger statements (C04)
 		f.Triggers = false
@@ -73,6 +74,8 @@ func Features(preset string) prog.Features {
 			f.SideEffectArgs = true
 		case "ElemAliasing":
 			f.ElemAliasing = true
+		case "ClosureCapture":
+			f.ClosureCapture = true
 		}
 	}
 	return f
@@ -105,6 +108,7 @@ func (c01) Cases(tier string, seed uint64) []fw.Case {
 	}
 	for _, ps := range []struct{ preset, tag, kf string }{
 		{"poison:SideEffectArgs", "side-effect-args", "KF-vm-arg-order"},
+		{"poison:ClosureCapture", "closure-capture", "KF-vm-closure-capture"},
 	} {
 		if !fw.KFOpen(ps.kf) {
 			continue // not poisoned: the feature is part of the main workload
